@@ -2,7 +2,12 @@
 //!
 //! JSON lines in / out.  Request:
 //!   {"templates": {name: source}, "main": name, "limit": n | null, "stack_kib": n,
-//!    "main_thread": bool, "nest": n}
+//!    "main_thread": bool, "nest": n,
+//!    "env": how the rendering environment is derived from the configured one (original | clone | clone_of_clone |
+//!           clone_modified | clone_then_set | stale_clone | original_after_clone | moved_thread | scoped_thread |
+//!           arc_thread | loader | autoreload | autoreload_reloaded | autoreload_fast),
+//!    "api": get_template | template_from_str | template_from_named_str | render_str | render_named_str |
+//!           render_captured | render_captured_to | new_state_block | captured_block | captured_macro, "entry_template", "entry_name": for the State-level APIs}
 //! The environment offers two globals to the templates:
 //!   probe()   - counts its calls (one call per recursion level, placed right before the level
 //!               recurses) and records the address of one of its locals (= native stack position);
@@ -83,32 +88,86 @@ fn kinds(e: &Error) -> (i64, i64, bool) {
     (outer, inner, reclimit)
 }
 
-fn run(req: &J) -> J {
+/// What a request configures on an environment.
+struct Cfg {
+    limit: Option<usize>,
+    tree: Value,
+    templates: Vec<(String, String)>,
+    use_loader: bool,
+}
+
+fn build(cfg: &Cfg, set_limit: bool) -> Result<Environment<'static>, J> {
+    let mut env = Environment::new();
+    if set_limit {
+        if let Some(n) = cfg.limit {
+            env.set_recursion_limit(n);
+        }
+    }
+    env.add_function("probe", probe);
+    env.add_global("tree", cfg.tree.clone());
+    if cfg.use_loader {
+        let map: std::collections::HashMap<String, String> = cfg.templates.iter().cloned().collect();
+        env.set_loader(move |name| Ok(map.get(name).cloned()));
+    } else {
+        for (name, src) in &cfg.templates {
+            if let Err(e) = env.add_template_owned(name.clone(), src.clone()) {
+                return Err(json!({"r": "load_error", "template": name, "kind": mjverif::err_code(e.kind()), "msg": e.to_string()}));
+            }
+        }
+    }
+    Ok(env)
+}
+
+fn leak(s: &str) -> &'static str {
+    Box::leak(s.to_string().into_boxed_str())
+}
+
+/// Renders through `env` by the API the request names and reports how far the recursion got.
+fn render_in(env: &Environment<'static>, req: &J) -> J {
     let base_marker = 0u8;
     let base = std::hint::black_box(&base_marker) as *const u8 as usize;
     COUNT.store(0, Ordering::Relaxed);
     FIRST.store(0, Ordering::Relaxed);
     DEEPEST.store(usize::MAX, Ordering::Relaxed);
-    let mut env = Environment::new();
-    if let Some(n) = req.get("limit").and_then(|x| x.as_u64()) {
-        env.set_recursion_limit(n as usize);
-    }
     let effective = env.recursion_limit();
-    env.add_function("probe", probe);
-    let nest = req.get("nest").and_then(|x| x.as_u64()).unwrap_or(0) as usize;
-    let tree = nested(nest);
-    env.add_global("tree", tree.clone());
-    let empty = serde_json::Map::new();
-    let templates = req.get("templates").and_then(|x| x.as_object()).unwrap_or(&empty);
-    for (name, src) in templates {
-        if let Err(e) = env.add_template_owned(name.clone(), src.as_str().unwrap_or("").to_string()) {
-            return json!({"r": "load_error", "template": name, "kind": mjverif::err_code(e.kind()), "msg": e.to_string()});
-        }
-    }
     let main = req.get("main").and_then(|x| x.as_str()).unwrap_or("main");
-    let res = catch_unwind(AssertUnwindSafe(|| {
-        let tmpl = env.get_template(main)?;
-        tmpl.render(())
+    let api = req.get("api").and_then(|x| x.as_str()).unwrap_or("get_template");
+    let entry_t = req.get("entry_template").and_then(|x| x.as_str()).unwrap_or("main");
+    let entry_n = req.get("entry_name").and_then(|x| x.as_str()).unwrap_or("entry");
+    let src = req
+        .get("templates")
+        .and_then(|t| t.get(main))
+        .and_then(|x| x.as_str())
+        .unwrap_or("");
+    let res = catch_unwind(AssertUnwindSafe(|| -> Result<String, Error> {
+        match api {
+            "template_from_str" => env.template_from_str(leak(src))?.render(()),
+            "template_from_named_str" => env.template_from_named_str(leak(main), leak(src))?.render(()),
+            "render_str" => env.render_str(src, ()),
+            "render_named_str" => env.render_named_str(main, src, ()),
+            "render_captured" => Ok(env.get_template(main)?.render_captured(())?.into_output()),
+            "render_captured_to" => {
+                let mut v = Vec::new();
+                env.get_template(main)?.render_captured_to((), &mut v)?;
+                Ok(String::from_utf8_lossy(&v).into_owned())
+            }
+            "new_state_block" => {
+                let t = env.get_template(entry_t)?;
+                let mut st = t.new_state();
+                st.render_block(entry_n)
+            }
+            "captured_block" => {
+                let t = env.get_template(entry_t)?;
+                let mut c = t.render_captured(())?;
+                c.with_state_mut(|st| st.render_block(entry_n))
+            }
+            "captured_macro" => {
+                let t = env.get_template(entry_t)?;
+                let mut c = t.render_captured(())?;
+                c.with_state_mut(|st| st.call_macro(entry_n, &[]))
+            }
+            _ => env.get_template(main)?.render(()),
+        }
     }));
     let n = COUNT.load(Ordering::Relaxed);
     let deepest = DEEPEST.load(Ordering::Relaxed);
@@ -122,8 +181,7 @@ fn run(req: &J) -> J {
             // formatting the (possibly very long) error chain must not crash either
             let _ = format!("{} {:#}", e, e);
             let j = json!({"r": "err", "outer": outer, "inner": inner, "reclimit": reclimit});
-            // error chains nest once per include/super level: drop them iteratively? Error's own Drop is
-            // recursive over `source`; it is part of what the property covers, so it stays on this stack.
+            // Error's own Drop is recursive over `source`; it is part of what the property covers, so it stays on this stack.
             drop(e);
             j
         }
@@ -140,7 +198,136 @@ fn run(req: &J) -> J {
     out["used"] = json!(used);
     out["span"] = json!(span);
     out["effective_limit"] = json!(effective);
-    drop(env);
+    out
+}
+
+/// "env": how the environment that renders is obtained from the configured one.
+fn run(req: &J, stack: usize) -> J {
+    let nest = req.get("nest").and_then(|x| x.as_u64()).unwrap_or(0) as usize;
+    let tree = nested(nest);
+    let empty = serde_json::Map::new();
+    let kind = req.get("env").and_then(|x| x.as_str()).unwrap_or("original").to_string();
+    let cfg = Cfg {
+        limit: req.get("limit").and_then(|x| x.as_u64()).map(|n| n as usize),
+        tree: tree.clone(),
+        templates: req
+            .get("templates")
+            .and_then(|x| x.as_object())
+            .unwrap_or(&empty)
+            .iter()
+            .map(|(k, v)| (k.clone(), v.as_str().unwrap_or("").to_string()))
+            .collect(),
+        use_loader: kind == "loader" || kind == "autoreload_fast",
+    };
+    macro_rules! tryb {
+        ($e:expr) => {
+            match $e {
+                Ok(v) => v,
+                Err(j) => return j,
+            }
+        };
+    }
+    let out = match kind.as_str() {
+        "clone" => {
+            let base = tryb!(build(&cfg, true));
+            let c = base.clone();
+            render_in(&c, req)
+        }
+        "clone_of_clone" => {
+            let base = tryb!(build(&cfg, true));
+            let c = base.clone().clone();
+            drop(base);
+            render_in(&c, req)
+        }
+        "clone_modified" => {
+            let base = tryb!(build(&cfg, true));
+            let mut c = base.clone();
+            c.add_global("extra_global", 1);
+            let _ = c.add_template_owned("extra_template".to_string(), "x".to_string());
+            render_in(&c, req)
+        }
+        "clone_then_set" => {
+            let base = tryb!(build(&cfg, false));
+            let mut c = base.clone();
+            if let Some(n) = cfg.limit {
+                c.set_recursion_limit(n);
+            }
+            render_in(&c, req)
+        }
+        "stale_clone" => {
+            // cloned BEFORE the original is configured: the clone keeps the limit it was cloned with (the default)
+            let mut base = tryb!(build(&cfg, false));
+            let c = base.clone();
+            if let Some(n) = cfg.limit {
+                base.set_recursion_limit(n);
+            }
+            let mut o = render_in(&c, req);
+            o["other_limit"] = json!(base.recursion_limit());
+            o
+        }
+        "original_after_clone" => {
+            // the original, after a clone of it was configured differently
+            let base = tryb!(build(&cfg, true));
+            let mut c = base.clone();
+            c.set_recursion_limit(333);
+            let mut o = render_in(&base, req);
+            o["other_limit"] = json!(c.recursion_limit());
+            o
+        }
+        "moved_thread" => {
+            let env = tryb!(build(&cfg, true));
+            let req2 = req.clone();
+            let h = std::thread::Builder::new().stack_size(stack).spawn(move || render_in(&env, &req2));
+            match h.map(|h| h.join()) {
+                Ok(Ok(v)) => v,
+                _ => json!({"r": "thread_failed"}),
+            }
+        }
+        "scoped_thread" => {
+            let env = tryb!(build(&cfg, true));
+            std::thread::scope(|sc| {
+                let h = std::thread::Builder::new().stack_size(stack).spawn_scoped(sc, || render_in(&env, req));
+                match h.map(|h| h.join()) {
+                    Ok(Ok(v)) => v,
+                    _ => json!({"r": "thread_failed"}),
+                }
+            })
+        }
+        "arc_thread" => {
+            let env = std::sync::Arc::new(tryb!(build(&cfg, true)));
+            let e2 = env.clone();
+            let req2 = req.clone();
+            let h = std::thread::Builder::new().stack_size(stack).spawn(move || render_in(&e2, &req2));
+            match h.map(|h| h.join()) {
+                Ok(Ok(v)) => v,
+                _ => json!({"r": "thread_failed"}),
+            }
+        }
+        "autoreload" | "autoreload_reloaded" | "autoreload_fast" => {
+            let cfg2 = Cfg { limit: cfg.limit, tree: cfg.tree.clone(), templates: cfg.templates.clone(), use_loader: cfg.use_loader };
+            let reloader = minijinja_autoreload::AutoReloader::new(move |_notifier| {
+                build(&cfg2, true).map_err(|_| Error::new(minijinja::ErrorKind::InvalidOperation, "load error"))
+            });
+            if kind == "autoreload_fast" {
+                reloader.notifier().set_fast_reload(true);
+            }
+            if kind != "autoreload" {
+                let first = reloader.acquire_env();
+                drop(first);
+                reloader.notifier().request_reload();
+            }
+            let o = match reloader.acquire_env() {
+                Ok(guard) => render_in(&guard, req),
+                Err(e) => json!({"r": "load_error", "msg": e.to_string()}),
+            };
+            o
+        }
+        _ => {
+            let env = tryb!(build(&cfg, true));
+            render_in(&env, req)
+        }
+    };
+    drop(cfg);
     unnest(tree);
     out
 }
@@ -164,11 +351,11 @@ fn main() {
                 continue;
             }
         };
+        let stack = req.get("stack_kib").and_then(|x| x.as_u64()).unwrap_or(2048).max(64) as usize * 1024;
         let res = if req.get("main_thread").and_then(|x| x.as_bool()).unwrap_or(false) {
-            run(&req)
+            run(&req, stack.max(2048 * 1024))
         } else {
-            let stack = req.get("stack_kib").and_then(|x| x.as_u64()).unwrap_or(2048) as usize * 1024;
-            let h = std::thread::Builder::new().stack_size(stack).spawn(move || run(&req));
+            let h = std::thread::Builder::new().stack_size(stack).spawn(move || run(&req, stack));
             match h.map(|h| h.join()) {
                 Ok(Ok(v)) => v,
                 _ => json!({"r": "thread_failed"}),
